@@ -138,6 +138,9 @@ def gen_cases(rng, tier):
             c = c01.gen_case(rng)
             c["medium"] = "tape"
             cases.append(c)
+    for bl in RAW_TAPES:
+        for vb in (True, False):
+            cases.append({"medium": "rawtape", "blocks": bl, "verbose": vb})
     for is_fd in (True, False):
         cases.append({"medium": "disk", "is_fd": is_fd, "verbose": True, "add": [{"arg": "z0.dat", "content": {"pat": "43", "len": 2500}}],
                       "sources": [{"arg": "a.dat", "content": {"pat": "41", "len": 3000}}, {"arg": "b.txt", "content": {"pat": "42", "len": 700}},
@@ -161,13 +164,65 @@ def gen_cases(rng, tier):
     return cases, {"random": n, "fixed": 14}
 
 
+def raw_tape(blocks):
+    out = b""
+    for ty, hexp in blocks:
+        pl = bytes.fromhex(hexp)
+        out += b"\x01" * 16 + b"\x3c\x5a" + bytes([ty, (len(pl) + 2) & 255]) + pl + bytes([(-sum(pl)) & 255])
+    return out + bytes(64)
+
+
+def _leader(name, ext, kind=2):
+    return [0, (name.ljust(8).encode() + ext.ljust(3).encode() + bytes([kind, 0, 0])).hex()]
+
+
+def _data(n, b=0x41):
+    return [1, (bytes([b]) * n).hex()]
+
+
+_EOF = [255, ""]
+RAW_TAPES = [
+    [_leader("OLD", "BAS", 0), _data(254), _leader("PROG", "BAS", 0), _data(254, 0x42), _data(254, 0x43), _data(92, 0x44), _EOF, _leader("NOTES", "DAT"), _data(10), _EOF],
+    [_leader("A", "BIN"), _data(100), _EOF, _data(77, 0x45), _data(5, 0x46), _leader("B", "BIN"), _data(200), _EOF],
+    [_leader("C", "BIN"), _EOF, _leader("D", "BIN"), _data(1), _EOF, _data(9)],
+]
+
+
 def run_case(case, ctx):
     cd = CaseDir(ctx)
     try:
         dis = bad = None
         f = {case["medium"]}
         nontrivial = False
-        if case["medium"] == "tape":
+        if case["medium"] == "rawtape":
+            # a tape whose blocks are not all enclosed leader..end (an interrupted SAVE, stray data blocks): what list and extract print for a file is
+            # what extract wrote for it
+            raw = raw_tape(case["blocks"])
+            cd.put("t.k7", raw)
+            v = case["verbose"]
+            vf = ["-v"] if v else []
+            rl = run_tool(ctx, "tar", ["-t"] + vf + ["t.k7"], cd)
+            rx = run_tool(ctx, "tar", ["-x"] + vf + ["t.k7"], cd)
+            ml = model_outcome(ctx.model.call("tar_list", v, raw))
+            mx = model_outcome(ctx.model.call("tar_extract", v, [], text_points("t.k7"), raw))
+            for nm, r, m in (("list", rl, ml), ("extract", rx, mx)):
+                if (r.get("status") == 0) != (m["status"] == 0) or r["lines"] != m["lines"]:
+                    dis = dis or {nm + " lines": r["lines"][:4], "model": m["lines"][:4], "status": [r.get("status"), m["status"]]}
+            if rl.get("status") != 0 or rx.get("status") != 0:
+                bad = {"status": [rl.get("status"), rx.get("status"), rx.get("msg")]}
+            elif rl["lines"] != rx["lines"]:
+                bad = {"list and extract reports differ": [rl["lines"][:3], rx["lines"][:3]]}
+            else:
+                for l in rx["lines"]:
+                    p = l.split("\t")
+                    got = cd.get(p[0])
+                    if got is None:
+                        bad = {"a reported file was not written": p[0]}
+                    elif v and (len(p) != 6 or p[4] != f"{len(got)} octets" or p[5] != f"{(len(got) + 253) // 254} blocks."):
+                        bad = {"reported": l, "the file written holds": len(got)}
+            f.add("v" if v else "q")
+            nontrivial = True
+        elif case["medium"] == "tape":
             obs = c01.flow(case, ctx, cd)
             dis = c01.compare(obs, cd)
             r = obs["create"]
@@ -273,6 +328,11 @@ def run_case(case, ctx):
 
 
 def shrink_candidates(case):
+    if case["medium"] == "rawtape":
+        b = case["blocks"]
+        for k in range(len(b)):
+            yield dict(case, blocks=b[:k] + b[k + 1:])
+        return
     s = case["sources"]
     for k in range(len(s)):
         yield dict(case, sources=s[:k] + s[k + 1:])
@@ -281,6 +341,8 @@ def shrink_candidates(case):
 
 
 def summarise(case):
+    if case["medium"] == "rawtape":
+        return {"medium": "rawtape", "verbose": case["verbose"], "blocks": [[t, len(h) // 2] for t, h in case["blocks"]]}
     return {"medium": case["medium"], "verbose": case.get("verbose"), "sources": [(s.get("eos") or [s["arg"], s["content"].get("len", 0)]) for s in case["sources"]][:6]}
 
 
